@@ -132,16 +132,17 @@ fn check_part_a(case: &Value, k: &Keys) -> Vec<(String, Value, Value)> {
   let payload = payload_of(s(&cfg["payload"]));
   let want = s(&case["outcome"]);
   let produced = match encode(cfg, &payload, k) {
+    // The property is about what IS produced: a refusal the reference does not predict (or the reverse) is a deviation
+    // from the reference, not a violation; whatever is produced goes through the full round trip below.
     Err(step) => {
       if step != want {
-        diffs.push(("encoder_step".into(), json!(want), json!(step)));
+        diffs.push(("~encoder_step".into(), json!(want), json!(step)));
       }
       return diffs;
     }
     Ok(p) => {
       if want != "produced" {
-        diffs.push(("encoder_step".into(), json!(want), json!("produced")));
-        return diffs;
+        diffs.push(("~encoder_step".into(), json!(want), json!("produced")));
       }
       p
     }
@@ -228,7 +229,19 @@ impl Keys2 {
 struct DocWorld {
   doc: CoreDocument,
   storage: FStorage,
+  /// the real relationships playing the model's "authentication", "assertionMethod" and the unused ones
+  ra: MethodRelationship,
+  rb: MethodRelationship,
+  unused: Vec<MethodRelationship>,
 }
+
+const RELS: [MethodRelationship; 5] = [
+  MethodRelationship::Authentication,
+  MethodRelationship::AssertionMethod,
+  MethodRelationship::KeyAgreement,
+  MethodRelationship::CapabilityDelegation,
+  MethodRelationship::CapabilityInvocation,
+];
 
 fn frag_of(m: &str) -> &'static str {
   match m {
@@ -239,17 +252,21 @@ fn frag_of(m: &str) -> &'static str {
   }
 }
 
-fn doc_world() -> DocWorld {
+/// `rot` rotates the model relationships over the five real ones, so every relationship-specific code path is driven
+fn doc_world(rot: usize) -> DocWorld {
   let w = world();
+  let ra = RELS[rot % 5];
+  let rb = RELS[(rot + 1) % 5];
+  let unused: Vec<MethodRelationship> = (2..5).map(|k| RELS[(rot + k) % 5]).collect();
   let mut doc = CoreDocument::builder(Default::default()).id(CoreDID::parse("did:example:signer").unwrap()).build().unwrap();
   let gen = |doc: &mut CoreDocument, frag: &str, scope: MethodScope| {
     block_on(doc.generate_method(&w.storage, JwkMemStore::ED25519_KEY_TYPE, JwsAlgorithm::EdDSA, Some(frag), scope)).unwrap();
   };
   gen(&mut doc, "vm-auth", MethodScope::VerificationMethod);
-  doc.attach_method_relationship("vm-auth", MethodRelationship::Authentication).unwrap();
-  gen(&mut doc, "emb-assert", MethodScope::VerificationRelationship(MethodRelationship::AssertionMethod));
+  doc.attach_method_relationship("vm-auth", ra).unwrap();
+  gen(&mut doc, "emb-assert", MethodScope::VerificationRelationship(rb));
   gen(&mut doc, "vm-plain", MethodScope::VerificationMethod);
-  DocWorld { doc, storage: w.storage }
+  DocWorld { doc, storage: w.storage, ra, rb, unused }
 }
 
 fn check_part_b(case: &Value, dw: &DocWorld) -> Vec<(String, Value, Value)> {
@@ -364,21 +381,28 @@ fn check_part_b(case: &Value, dw: &DocWorld) -> Vec<(String, Value, Value)> {
       "different" => vo = vo.nonce("nonce-2"),
       _ => {}
     }
-    match s(&a["scope"]) {
-      "vm" => vo = vo.method_scope(MethodScope::VerificationMethod),
-      "authentication" => vo = vo.method_scope(MethodScope::authentication()),
-      "assertionMethod" => vo = vo.method_scope(MethodScope::assertion_method()),
-      _ => {}
+    let scopes: Vec<Option<MethodScope>> = match s(&a["scope"]) {
+      "vm" => vec![Some(MethodScope::VerificationMethod)],
+      "authentication" => vec![Some(MethodScope::VerificationRelationship(dw.ra))],
+      "assertionMethod" => vec![Some(MethodScope::VerificationRelationship(dw.rb))],
+      "unused_rel" => dw.unused.iter().map(|r| Some(MethodScope::VerificationRelationship(*r))).collect(),
+      _ => vec![None],
+    };
+    for sc in scopes {
+    let mut vo = vo.clone();
+    if let Some(sc) = sc {
+      vo = vo.method_scope(sc);
     }
     let r = dw.doc.verify_jws(jws.as_str(), det, &EdDSAJwsVerifier::default(), &vo);
     let want_ok = b(&att["ok"]);
     if r.is_ok() != want_ok {
       let key = if r.is_ok() { "verified_unbound" } else { "own_token_not_verifiable" };
-      diffs.push((key.into(), json!({"attempt": a, "ok": want_ok}), json!({"ok": r.is_ok(), "error": r.err().map(|e| e.to_string())})));
+      diffs.push((key.into(), json!({"attempt": a, "ok": want_ok, "real_scope": format!("{:?}", vo.method_scope)}), json!({"ok": r.is_ok(), "error": r.err().map(|e| e.to_string())})));
     } else if let Ok(d) = r {
       if d.claims.as_ref() != payload.as_slice() {
         diffs.push(("verified_payload".into(), json!("signed payload"), json!("differs")));
       }
+    }
     }
   }
   diffs
@@ -386,17 +410,25 @@ fn check_part_b(case: &Value, dw: &DocWorld) -> Vec<(String, Value, Value)> {
 
 fn replay_chunk(cases: &[Value], rep: &mut Report) {
   let k = keys();
-  let dw = doc_world();
-  for case in cases {
+  let dws: Vec<DocWorld> = (0..5).map(doc_world).collect();
+  for (ci, case) in cases.iter().enumerate() {
+    let dw = &dws[ci % 5];
     note_case(&case["cfg"]);
     rep.eval();
     let part = s(&case["cfg"]["part"]).to_string();
-    let r = guarded(|| if part == "A" { check_part_a(case, &k) } else { check_part_b(case, &dw) });
+    let r = guarded(|| if part == "A" { check_part_a(case, &k) } else { check_part_b(case, dw) });
     let ctx = json!({"cfg": case["cfg"], "outcome": case["outcome"]});
     match r {
       Err(p) => rep.mismatch(&format!("jws_produce/{part}/panic"), &ctx, json!("no panic"), json!(p), "panic"),
       Ok(diffs) => {
+        let real = diffs.iter().any(|(kk, _, _)| !kk.starts_with('~'));
         for (kk, exp, obs) in diffs {
+          if kk.starts_with('~') {
+            if !real {
+              rep.reference_drift(&format!("jws_produce/{part}/{}", &kk[1..]), &ctx, exp, obs);
+            }
+            continue;
+          }
           rep.mismatch(&format!("jws_produce/{part}/{kk}"), &ctx, exp, obs, "");
         }
       }
